@@ -177,7 +177,7 @@ def run_shard(shard: Dict[str, Any]) -> Acc:
                 continue
             nontrivial = (0 in case["rounds"] or 1 in case["rounds"]) and len(case["rounds"]) >= 2
             acc.case(bp.phash(case), nontrivial, sample=case)
-            check_case(case, acc)
+            common.guarded(acc, check_case, case, acc, case={"experiment": case})
         acc.count("enumerated_space_size", shard["total"] if shard["part"] == 0 else 0)
         return acc
     rng = random.Random(shard["seed"])
@@ -185,7 +185,7 @@ def run_shard(shard: Dict[str, Any]) -> Acc:
         length = rng.randint(1, 12)
         case = {"rounds": rng.sample(range(0, 60), length), "heralded": rng.random() < 0.5, "reps": rng.choice([1, 2, 3, 7]), "ids": rng.randrange(len(ID_SETS))}
         acc.case(bp.phash(case), len(case["rounds"]) >= 2, sample=None)
-        check_case(case, acc)
+        common.guarded(acc, check_case, case, acc, case={"experiment": case})
     return acc
 
 
